@@ -423,7 +423,7 @@ def run(ctx):
                "'missing tokens' = null or empty set; empty-string dc/rack are not generated")
     ctx.assume("distinct valid hosts never share a token in a snapshot (ownership would be ambiguous)")
     n = ctx.scale(100000, 60000)
-    budget = 40 if ctx.quick else 420
+    budget = 38 if ctx.quick else 300
     base = ctx.seed * 1000003 + (ctx.worker or 0) * 100003
     import time
     t_start = time.time()          # the budget counts from here (imports can be slow on a loaded machine); a minimum is always run
